@@ -62,7 +62,7 @@ var FixedSnapshots = []func(root string) *Catalog{
 var (
 	dbNamePool   = []string{"db1", "a", "a_b", "prod", "b", "x_1", "a_b_c"}
 	collNamePool = []string{"c", "b_c", "coll", "c_1", "x", "a_b", "b"}
-	partNamePool = []string{"p", "q", "p_1", "c_p", "b_p"}
+	partNamePool = []string{"p", "q", "p_1", "c_p", "b_p", "_default_2"}
 )
 
 type genItem struct {
